@@ -11,7 +11,7 @@ DBG = "Harness built with debug-assertions and overflow-checks ON so internal as
 
 CHECKS = {
  "C01": C("property-based testing (proptest, seeded, shrinking) + dense length sweep vs an independent spec model",
-   "Exploration: every input length 0..130 KiB (quick) / 0..520 KiB (thorough) in all three modes plus proptest-generated (mode, key/context, boundary-lattice length, content) cases, 256 KiB-16 MiB inputs, single inputs of 2^31+1 and 2^32+1 bytes, the random generator again at every SIMD level this CPU has (hook 1), and 16-64 MiB inputs in the thorough tier, are compared with a recursive-definition model of the BLAKE3 paper pinned to a frozen copy of the official vectors; panics count as failures. The property quantifies over all inputs and has an executable oracle, so generated search is the fitting level; absence beyond the generated cases is not shown.",
+   "Exploration: every input length 0..130 KiB (quick) / 0..520 KiB (thorough) in all three modes plus proptest-generated (mode, key/context, boundary-lattice length, content) cases, 256 KiB-16 MiB inputs, single inputs of 2^31+1 and 2^32+1 bytes, the random generator again at every SIMD level this CPU has (hook 1), sequences of nearly identical consecutive calls, and 16-64 MiB inputs in the thorough tier, are compared with a recursive-definition model of the BLAKE3 paper pinned to a frozen copy of the official vectors; panics count as failures. The property quantifies over all inputs and has an executable oracle, so generated search is the fitting level; absence beyond the generated cases is not shown.",
    SPEC + DBG, "DESIGN.md §3 C01"),
  "C02": C("model-based property testing of call histories (proptest vec(op) + interpreter, spec model compared after every op)",
    "Exploration over histories of update/Write/io::copy/update_reader/update_rayon/update_mmap*/finalize/finalize_xof/count/clone/clone_from on up to three hashers, plus few-but-long operations (64 KiB-12 MiB per call) and single updates beyond 2^32 bytes; sizes are resolved against the running total so block/chunk/power-of-two/SIMD-degree boundaries after odd prefixes are frequent; count(), finalize(), XOF bytes and the one-shot function are compared with the spec model of each instance's bytes after every step.",
@@ -38,7 +38,7 @@ CHECKS = {
    "Exploration over histories with set_input_offset (chunk-index lattice), updates clamped to the offset's subtree limit, finalize variants, inherent reset, digest::Reset and all eight resetting trait finalizers (output lengths 0/1/32/100), clone / clone_from / swap; after each reset a freshly constructed twin runs the same suffix and both are compared with each other and with the spec after every op.",
    SPEC + DBG, "DESIGN.md §3 C10"),
  "C11": C("property-based fault injection: scripted Read implementations + file-length lattice, spec oracle",
-   "Exploration over reader behaviours (short reads, Interrupted, six kinds of hard errors, early EOF in any order), with prefixes and continued use after errors; files of every length around the 16 KiB mapping threshold and beyond through update_mmap, update_mmap_rayon and update_reader(File); special paths (incl. a sysfs file whose mmap fails and large procfs files), named pipes fed in pieces by a writer thread, directory, missing path; Write adapters.",
+   "Exploration over reader behaviours (short reads, Interrupted, hard errors of every stable ErrorKind, early EOF in any order), with prefixes and continued use after errors; files of every length around the 16 KiB mapping threshold and beyond through update_mmap, update_mmap_rayon and update_reader(File); special paths (incl. a sysfs file whose mmap fails and large procfs files), named pipes fed in pieces by a writer thread, directory, missing path; Write adapters.",
    SPEC + DBG + "Special files are used only if present with stable finite content; Named pipes are fed a finite script by a writer thread that is always drained; endless devices are excluded (they would hang, which is not evidence).", "DESIGN.md §3 C11"),
  "C14": C("exhaustive sweeps over decomposed value spaces + proptest, independent hex codec as oracle",
    "Exploration with exhaustive sub-spaces: every byte value at every position of a hash (all conversions incl. serde JSON/CBOR, the legacy CBOR byte string and a non-self-describing bincode-layout format), every byte value at every position of a valid hex string, all lengths 0..=130, from_slice for all lengths 0..=100, all 256 single-bit pairs, all 32640 two-bit pairs, equal differences over every lane subset, slices that extend a hash's own bytes; plus random inputs.",
@@ -57,10 +57,10 @@ CHECKS = {
 
 CHECKS.update({
  "C08": C("property-based testing over schedule scripts: scripted fork-join (hook 2 and the C TBB seam) + real rayon pools, serial twin and spec as oracle",
-   "Exploration over (mode, forced SIMD level, prefix, input, suffix) x schedule, where the harness owns the order of the two halves of every recursive split: left-first / right-first / truly concurrent on two threads as a pure function of (seed, split-tree path), through a Join implementation compiled into the crate (hook 2) and through the C library's blake3_compress_subtree_wide_join_tbb seam implemented by the harness; plus update_rayon / update_mmap_rayon in pools of 1..16 threads (inputs up to 24 MiB quick / 64 MiB thorough, pool sizes that are not powers of two over-weighted), and a clang ThreadSanitizer driver over the C TBB seam with every split concurrent. The multithreaded hasher must be observationally equal to a serial twin (count, hash, XOF, again after a common suffix) and to the spec.",
+   "Exploration over (mode, forced SIMD level, prefix, input, suffix) x schedule, where the harness owns the order of the two halves of every recursive split: left-first / right-first / truly concurrent on two threads as a pure function of (seed, split-tree path), through a Join implementation compiled into the crate (hook 2) and through the C library's blake3_compress_subtree_wide_join_tbb seam implemented by the harness (scripted, or handed to rayon's work-stealing scheduler); plus update_rayon / update_mmap_rayon in pools of 1..16 threads (inputs up to 24 MiB quick / 64 MiB thorough, pool sizes that are not powers of two over-weighted), and a clang ThreadSanitizer driver over the C TBB seam with every split concurrent. The multithreaded hasher must be observationally equal to a serial twin (count, hash, XOF, again after a common suffix) and to the spec.",
    SPEC + DBG + "Schedules are sampled, not enumerated: the harness controls the ORDER of halves, not instruction interleavings; data-race freedom rests on the borrow checker for safe Rust and on C07 for kernels; real oneTBB is replaced by a pthread seam.", "DESIGN.md §3 C08"),
  "C12": C("property-based testing of the real b3sum binary over generated files, flag combinations and checkfiles (spec model + verdict-by-construction oracle)",
-   "Exploration: the binary compiled from /repo/b3sum/src/main.rs is run on generated files with hostile names and generated combinations of --keyed/--derive-key/--length/--seek/--no-mmap/--num-threads/--raw/--no-names/--tag, and on standard input (pipe, file, file at an advanced offset); stdout must be byte-for-byte the documented line format around spec S[seek..seek+length]; its output is fed back to the real --check. Checkfiles are assembled from entries whose verdict is known by construction (good/stale/missing/directory/malformed, LF/CRLF, plain/tagged): exit status 0 iff all good, OK/FAILED lines in order, diagnostics and the WARNING count.",
+   "Exploration: the binary compiled from /repo/b3sum/src/main.rs is run on generated files with hostile names and generated combinations of --keyed/--derive-key/--length/--seek/--no-mmap/--num-threads/--raw/--no-names/--tag, and on standard input (pipe, file, file at an advanced offset), with missing / directory arguments among the files, and on unmappable files of this system; stdout must be byte-for-byte the documented line format around spec S[seek..seek+length]; its output is fed back to the real --check. Checkfiles are assembled from entries whose verdict is known by construction (good/stale/missing/directory/malformed, LF/CRLF, plain/tagged): exit status 0 iff all good, OK/FAILED lines in order, diagnostics and the WARNING count.",
    SPEC + "b3sum is built through engine/b3shim with a 6-line stand-in for the `wild` crate (not in the offline cache; on Unix wild::args_os is std::env::args_os) and without clap's wrap_help (help text only). Wording of diagnostics is not asserted.", "DESIGN.md §3 C12"),
  "C13": C("property-based round-trip and certificate checking on b3sum's own printer/parser functions + exhaustive single-character mutants",
    "Exploration in-process on b3sum's filepath_to_string and parse_check_line (main.rs is include!-d unchanged): 200k paths from a hostile alphabet in both forms and three terminators must be printed as one physical line in the documented escaped form, round-trip exactly when representable and be rejected otherwise; arbitrary text, near-valid lines and every single-character replace/insert/delete mutant of valid base lines must never panic, and any accepted line is verified as a certificate against the line text (so lines with several conceivable decompositions cannot raise false alarms); constructed members of the always-error classes must be rejected.",
